@@ -21,38 +21,24 @@ Theorem C30_accepted_port_in_range : forall ipq c m raw u,
 Proof. exact accepted_port_in_range. Qed.
 Print Assumptions C30_accepted_port_in_range.
 
-(* "no empty labels" is FALSE as stated: the empty host ("http://./", "http://:80/") and a host cut
-   at 255 bytes by Uri::host() ("http://aaa...a.b/") are accepted *)
-Theorem C30_accepted_host_no_empty_labels_refuted_empty_host :
-  exists ipq c m raw u, ipq_contract ipq /\ parse c ipq m raw = Some u /\
-    s_id (u_scheme u) <> uri_PROTO_URN /\ u_num u = false /\ no_empty_label (u_host u) = false.
-Proof. exact no_empty_labels_refuted_empty_host. Qed.
-Print Assumptions C30_accepted_host_no_empty_labels_refuted_empty_host.
-
-Theorem C30_accepted_host_no_empty_labels_refuted_truncated_host :
-  exists ipq c m raw u, ipq_contract ipq /\ parse c ipq m raw = Some u /\
-    s_id (u_scheme u) <> uri_PROTO_URN /\ u_num u = false /\ u_host u <> [] /\
-    no_empty_label (u_host u) = false.
-Proof. exact no_empty_labels_refuted_truncated_host. Qed.
-Print Assumptions C30_accepted_host_no_empty_labels_refuted_truncated_host.
-
-(* what holds: a non-empty host that is not an IP literal and shorter than the 255-byte cut
-   splits at '.' into non-empty labels only.  Missing for the full statement: the two cases above. *)
-Theorem C30_accepted_host_no_empty_labels_partial : forall ipq c m raw u,
+(* its host (unless it is an IP literal, or the request-target is the asterisk-form) is non-empty,
+   shorter than the host buffer, and splits at '.' into non-empty labels only *)
+Theorem C30_accepted_host_no_empty_labels : forall ipq c m raw u,
   parse c ipq m raw = Some u -> s_id (u_scheme u) <> uri_PROTO_URN ->
-  u_num u = false -> u_host u <> [] -> lenN (u_host u) < uri_SQUIDHOSTNAMELEN - 1 ->
-  no_empty_label (u_host u) = true.
-Proof. exact accepted_host_labels_partial. Qed.
-Print Assumptions C30_accepted_host_no_empty_labels_partial.
+  list_eqb raw uri_asterisk = false -> u_num u = false ->
+  u_host u <> [] /\ no_empty_label (u_host u) = true /\ lenN (u_host u) < uri_SQUIDHOSTNAMELEN.
+Proof. exact accepted_host_labels. Qed.
+Print Assumptions C30_accepted_host_no_empty_labels.
 
-(* ---- (2) canonical form: refutations ---- *)
+(* ---- (2) canonical form: what is still false ---- *)
 
-(* F14: "http://example.com/a?b=c" -> "http://example.com/a%3Fb=c" -> a different path *)
-Theorem C30_canonical_reparse_refuted_query :
+(* "http://example.com/a#f" -> "http://example.com/a%23f" -> a different path
+   (path_ also holds the fragment; '#' is not in the set absolutePath() keeps) *)
+Theorem C30_canonical_reparse_refuted_fragment :
   exists ipq c m raw u u', ipq_contract ipq /\ parse c ipq m raw = Some u /\
     parse c ipq m (canonical m u) = Some u' /\ u_path u' <> u_path u.
-Proof. exact canonical_reparse_refuted_query. Qed.
-Print Assumptions C30_canonical_reparse_refuted_query.
+Proof. exact canonical_reparse_refuted_fragment. Qed.
+Print Assumptions C30_canonical_reparse_refuted_fragment.
 
 (* "http://[a:80/" is accepted with host "a:80"; its canonical form "http://a:80/" names host "a" *)
 Theorem C30_canonical_reparse_refuted_colon_host :
@@ -61,12 +47,19 @@ Theorem C30_canonical_reparse_refuted_colon_host :
 Proof. exact canonical_reparse_refuted_colon_host. Qed.
 Print Assumptions C30_canonical_reparse_refuted_colon_host.
 
-(* "http://./" is accepted with an empty host; its canonical form "http:///" is rejected *)
-Theorem C30_canonical_reparse_refuted_empty_host :
+(* "urn:12:xyz" with an oracle reading "12" as 0.0.0.12 (inet_aton): canonical form "urn:0.0.0.12:xyz" is rejected *)
+Theorem C30_canonical_reparse_refuted_urn_nid :
   exists ipq c m raw u, ipq_contract ipq /\ parse c ipq m raw = Some u /\
     parse c ipq m (canonical m u) = None.
-Proof. exact canonical_reparse_refuted_empty_host. Qed.
-Print Assumptions C30_canonical_reparse_refuted_empty_host.
+Proof. exact canonical_reparse_refuted_urn_nid. Qed.
+Print Assumptions C30_canonical_reparse_refuted_urn_nid.
+
+(* the bytes absolutePath() leaves alone are PathChars() and the query delimiter '?' (table regenerated
+   from absolutePath() itself on every run) *)
+Theorem C30_query_delimiter_is_kept : forall c, c < 256 ->
+  path_kept c = uri_PathChars c || (c =? 63).
+Proof. exact path_kept_spec. Qed.
+Print Assumptions C30_query_delimiter_is_kept.
 
 (* ---- (1)/(3) the port of an RFC-shaped URI ---- *)
 
@@ -115,9 +108,10 @@ Print Assumptions C30_shaped_default_port.
 
 (* Re-parsing absolute() of a URI value whose host is a settled reg-name (non-empty, no '@' ':' or
    leading '[', unchanged by lower-casing / trailing-dot removal, not cut) or a dotted quad that
-   Ip::Address recognises as itself, and whose path consists of PathChars only (so: no query, no
-   fragment, nothing to encode) yields the same scheme, host, port and path.
-   Missing for the full statement: paths with '?' '#' or bytes that Encode rewrites (refuted above),
+   Ip::Address recognises as itself, and whose path+query consists of bytes absolutePath() keeps
+   (PathChars and '?': so a query is covered; no fragment, nothing to encode) yields the same scheme,
+   host, port and path.
+   Missing for the full statement: paths with '#' or bytes that Encode rewrites (refuted above),
    hosts outside this class (refuted above), bracketed IPv6 literals and CONNECT targets (covered
    by the correspondence run and the oracle only), and the link "every parse result of a well-formed
    URI is such a value" is proved for the port and scheme (theorems above) but not for host and path. *)
@@ -156,12 +150,12 @@ Example C30_ex_accepted :
             u_num u = false /\ u_host u <> [] /\ lenN (u_host u) < uri_SQUIDHOSTNAMELEN - 1.
 Proof. eexists. split; [vm_compute; reflexivity|]. repeat split; vm_compute; discriminate || reflexivity. Qed.
 
-(* "http://Example.COM:8080/x": shaped with s = "http", h = "Example.COM", P = "8080", rest = "/x";
+(* "http://Example.COM:8080/x?q=1": shaped with s = "http", h = "Example.COM", P = "8080", rest = "/x?q=1";
    its parse result satisfies every hypothesis of the canonical re-parse theorem *)
 Definition C30_ex_s : bytes := [104;116;116;112].
 Definition C30_ex_h : bytes := [69;120;97;109;112;108;101;46;67;79;77].
 Definition C30_ex_P : bytes := [56;48;56;48].
-Definition C30_ex_rest : bytes := [47;120].
+Definition C30_ex_rest : bytes := [47;120;63;113;61;49].   (* /x?q=1 *)
 Definition C30_ex_raw : bytes := C30_ex_s ++ colon :: slash :: slash :: ([] ++ C30_ex_h ++ colon :: C30_ex_P) ++ C30_ex_rest.
 Definition C30_ex_u : uri :=
   match parse cfg_default no_ip m_get C30_ex_raw with Some u => u | None => star_uri end.
@@ -190,7 +184,7 @@ Proof.
   split. { unfold scheme_text. split; [vm_compute; reflexivity|]. split; [vm_compute; discriminate| vm_compute; reflexivity]. }
   split; [vm_compute; reflexivity|]. split; [vm_compute; discriminate|]. split; [vm_compute; discriminate|].
   split. { unfold settled_host. split; [vm_compute; discriminate|]. repeat (split; [vm_compute; reflexivity|]).
-           intros H; vm_compute in H; discriminate H. }
+           split; [intros H; vm_compute in H; discriminate H| vm_compute; reflexivity]. }
   split; [vm_compute; reflexivity|]. split; [unfold clean_path; split; vm_compute; reflexivity|].
   split; [vm_compute; discriminate| vm_compute; reflexivity].
 Qed.
